@@ -27,6 +27,10 @@ U3 (K6/K1) renames are two-stage: rename_remote moves the old path to a unique t
 a swap of two names cannot overwrite either file. Directory deletions are deferred (delete_remote_dir_maybe) until
 finish_deletions(), after the renames out of those directories.
 U4 ignored paths: every loop tests self.is_ignored(...) before touching the remote side.
+U5 a change leaves its loop iteration early only through the is_ignored test, and every normal way through a kind arm
+performs a remote operation (upload_* / delete_remote* / rename_remote / make_remote*).
+U6 cmd_upload.run calls upload_full_tree() (which deletes nothing) only under the user's `full` option and never
+reassigns it.
 Does not decide: equality of the remote directory with the tree (values), the full-upload path, remote transport semantics.
 """
 CATS = ["removed", "renamed", "kind_changed", "added", "modified"]
@@ -129,8 +133,42 @@ def run(ctx):
     ctx.check("U3-two-stage-rename", w2, any(isinstance(s, ast.Assign) and norm(s.targets[0]) == "self._pending_renames" and norm(s.value) == "[]" for s in walk_own(f2)), "the pending list is cleared afterwards")
     ctx.sample({"categories": cats})
 
+    # ---- U5: no change of a walked category is skipped except through the ignore test -----------------------------
+    for l in loops:
+        cat = norm(l.iter)
+        for n in ast.walk(l):
+            if isinstance(n, (ast.Continue, ast.Break)):
+                owner = [i for i in ast.walk(l) if isinstance(i, ast.If) and any(x is n for x in ast.walk(i))]
+                ok = any(any(call_attr(c) == "is_ignored" for c in calls_in(i.test)) for i in owner)
+                ctx.check("U5-no-change-skipped", f"{where}[{cat}]", ok, f"a change of {cat} leaves its iteration early only through the is_ignored test", construct=f"L{n.lineno}:{type(n).__name__.lower()} under {[norm(i.test)[:50] for i in owner][-1:]}", message=f"upload_tree skips a change of {cat} for a reason other than the ignore list ({[norm(i.test)[:60] for i in owner][-1:]}): that path is neither deleted, renamed nor uploaded, the remote directory keeps (or lacks) it and the marker still advances")
+    gx = g.without_exc_edges()
+    EFFECT = ("upload_", "delete_remote", "rename_remote", "make_remote")
+    eff = {n.id for n in gx.nodes if any((call_attr(c) or "").startswith(EFFECT) and call_recv(c) == "self" for c in n.calls())}
+    kind_tests = [n.id for n in gx.nodes if n.kind == "test" and any(isinstance(c, ast.Compare) and ".kind[" in norm(c.left) and isinstance(c.ops[0], (ast.Eq, ast.In)) for c in ast.walk(n.ast))]
+    ctx.require(len(kind_tests) >= 8, f"{where}: only {len(kind_tests)} kind tests found")
+    heads = {n.id for n in gx.nodes if n.kind in ("for-iter", "loop", "for")} | {n.id for n in gx.nodes if n.ast is not None and isinstance(n.ast, ast.For)}
+    n_arm = 0
+    for t in kind_tests:
+        starts = [b for (b, l_) in gx.succ[t] if l_ == "T" and b not in eff]
+        if not starts:
+            n_arm += 1
+            continue
+        r_ = gx.reach(starts, avoid=eff, include_src=True)
+        # leaving the arm without an effect = reaching another kind test of a *later* statement, a loop head or the exit
+        out = sorted(i for i in r_ if i == gx.exit or i in heads or (i in kind_tests and i != t))
+        n_arm += 1
+        ctx.check("U5-no-change-skipped", f"{where}[{norm(gx.nodes[t].ast)[:40]}]", not out, f"every normal way through the arm `{norm(gx.nodes[t].ast)[:40]}` performs its remote operation", construct=gx.nodes[t].text()[:60], message=f"upload_tree can pass through the arm `{norm(gx.nodes[t].ast)[:50]}` without deleting, renaming or uploading anything: the change is silently left out and the marker still advances", witness=gx.show_path(gx.path(starts, out, avoid=eff)) if out else None)
+    # ---- U6: a full upload (which never deletes) happens only on request -------------------------------------------
+    fr = repo.func(UP, "cmd_upload.run")
+    wr_ = f"{UP}:cmd_upload.run"
+    reass = [f"L{s_.lineno}:{norm(s_)[:40]}" for s_ in walk_own(fr) if isinstance(s_, (ast.Assign, ast.AugAssign)) and any(norm(t_) == "full" for t_ in (s_.targets if isinstance(s_, ast.Assign) else [s_.target]))]
+    fcalls = [c for c in calls_in(fr) if call_attr(c) == "upload_full_tree"]
+    guarded = [i for i in ast.walk(fr) if isinstance(i, ast.If) and norm(i.test) == "full" and any(call_attr(c) == "upload_full_tree" for s_ in i.body for c in calls_in(s_))]
+    ctx.check("U6-full-upload-only-on-request", wr_, "full" in [a.arg for a in fr.args.args] and not reass and len(fcalls) == 1 and len(guarded) == 1, "upload_full_tree() runs only under the user's `full` option, which run() never reassigns", construct="; ".join(reass) or str([norm(c) for c in fcalls]), message=f"cmd_upload.run switches to a full upload by itself ({reass}): a full upload deletes nothing, so paths that exist only in the previously uploaded revision stay on the remote while the marker advances — later incremental uploads never remove them")
 
 MUTANTS = [
+    Mutant("removed file kept when a file is added at the same path", UP, "                if change.kind[0] == \"file\":\n                    self.delete_remote_file(change.path[0])\n                elif change.kind[0] == \"directory\":\n                    self.delete_remote_dir_maybe(change.path[0])\n", "                if change.kind[0] == \"file\":\n                    if change.path[0] in {c.path[1] for c in changes.added}:\n                        continue\n                    self.delete_remote_file(change.path[0])\n                elif change.kind[0] == \"directory\":\n                    self.delete_remote_dir_maybe(change.path[0])\n", expect="U5-no-change-skipped"),
+    Mutant("diverged overwrite silently becomes a full upload", UP, "            if full:\n                uploader.upload_full_tree()\n", "            if overwrite:\n                full = True\n            if full:\n                uploader.upload_full_tree()\n", expect="U6-full-upload-only-on-request"),
     Mutant("empty removed directories always deferred", UP, "        try:\n            self._up_rmdir(relpath)\n        # any kind of PathError would be OK, though we normally expect\n        # DirectoryNotEmpty\n        except transport_errors.PathError:\n            self._pending_deletions.append(relpath)\n", "        self._pending_deletions.append(relpath)\n", expect="U3-deferred-dir-deletion"),
     Mutant("kind changes no longer uploaded", UP, "            for change in changes.kind_changed:", "            for change in []:", expect="U1-categories-exhaustive"),
     Mutant("added symlinks skipped silently", UP, "                elif change.kind[1] == \"directory\":\n                    self.make_remote_dir(change.path[1])\n                elif change.kind[1] == \"symlink\":", "                elif change.kind[1] == \"directory\":\n                    self.make_remote_dir(change.path[1])\n                elif change.kind[1] == \"tree-reference\":", expect="U1-kinds-dispatched"),
